@@ -41,7 +41,8 @@ type BlockRec struct {
 	Frame    uint32
 	Atropos  int // G
 	Cheaters []uint32
-	Applied  []int // G, in callback order
+	kept     lachesis.Cheaters // the very slice the library handed over, retained the way applications retain blocks
+	Applied  []int             // G, in callback order
 	Sealed   bool
 }
 
